@@ -889,3 +889,118 @@ func kindRewindChain(x *Ctx, it Item) {
 	x.Printf("From Oras Require Import Base.RetryTypes.\n(* %s *)\n", what)
 	x.Printf("Definition %s (body_nil body_nobody getbody_nil getbody_fails : bool) : rw_class :=\n  %s.\n\n", coqName(it), expr)
 }
+
+// backoffexprs: the arithmetic of ExponentialBackoff's returned closure, as rational functions
+// (float64 is modelled by exact rationals), and the constants of its Retry-After branch:
+//
+//	if resp != nil && resp.StatusCode == <status> {                 -> <coq>_retry_after_status : Z
+//	    ... if retryAfter, _ := strconv.ParseInt(v, 10, 64); retryAfter <op> <k> {   -> <coq>_retry_after_ok (ra : Z) : bool
+//	        return time.Duration(retryAfter) * <unit>               -> <coq>_retry_after_unit : Z
+//	temp := <expr over backoff, factor, attempt>                    -> <coq>_temp (backoff : Z) (factor jitter : Q) (attempt : Z) : Q
+//	interval := time.Duration(<expr over temp, jitter>)             -> <coq>_a (temp jitter : Q) : Q
+//	... n := int64(<expr over temp, jitter>) ...                    -> <coq>_n (temp jitter : Q) : Q
+func init() { kinds["backoffexprs"] = kindBackoffExprs }
+
+func qExpr(f *ast.File, e ast.Expr, what string) string {
+	switch x := e.(type) {
+	case *ast.ParenExpr:
+		return qExpr(f, x.X, what)
+	case *ast.BasicLit:
+		v := constant.ToFloat(constant.MakeFromLiteral(x.Value, x.Kind, 0))
+		return fmt.Sprintf("(Qmake (%s)%%Z (%s)%%positive)", constant.Num(v).ExactString(), constant.Denom(v).ExactString())
+	case *ast.Ident:
+		switch x.Name {
+		case "temp", "jitter", "factor":
+			return x.Name
+		}
+	case *ast.BinaryExpr:
+		op := map[token.Token]string{token.MUL: "Qmult", token.ADD: "Qplus", token.SUB: "Qminus", token.QUO: "Qdiv"}[x.Op]
+		if op != "" {
+			return "(" + op + " " + qExpr(f, x.X, what) + " " + qExpr(f, x.Y, what) + ")"
+		}
+	case *ast.CallExpr:
+		if id, ok := x.Fun.(*ast.Ident); ok && id.Name == "float64" && len(x.Args) == 1 {
+			if isIdent(x.Args[0], "backoff") {
+				return "(inject_Z backoff)"
+			}
+		}
+		if sel, ok := x.Fun.(*ast.SelectorExpr); ok && isIdent(sel.X, "math") && sel.Sel.Name == "Pow" && len(x.Args) == 2 {
+			if c, ok := x.Args[1].(*ast.CallExpr); ok && isIdent(c.Fun, "float64") && len(c.Args) == 1 && isIdent(c.Args[0], "attempt") {
+				return "(Qpower " + qExpr(f, x.Args[0], what) + " attempt)"
+			}
+		}
+	}
+	fail("%s: arithmetic expression has an unsupported shape", what)
+	return ""
+}
+
+func kindBackoffExprs(x *Ctx, it Item) {
+	what := it.File + ":" + it.Func
+	f := x.File(it.File)
+	fd := findFunc(f, it.Recv, it.Func)
+	if fd == nil {
+		fail("%s: function not found", what)
+	}
+	name := coqName(it)
+	var temp, a, n ast.Expr
+	status, unit, okCond := "", "", ""
+	ast.Inspect(fd.Body, func(nd ast.Node) bool {
+		switch s := nd.(type) {
+		case *ast.AssignStmt:
+			if len(s.Lhs) == 1 && len(s.Rhs) == 1 && s.Tok == token.DEFINE {
+				switch {
+				case isIdent(s.Lhs[0], "temp"):
+					temp = s.Rhs[0]
+				case isIdent(s.Lhs[0], "interval"):
+					if c, ok := s.Rhs[0].(*ast.CallExpr); ok && len(c.Args) == 1 {
+						a = c.Args[0]
+					}
+				case isIdent(s.Lhs[0], "n"):
+					if c, ok := s.Rhs[0].(*ast.CallExpr); ok && isIdent(c.Fun, "int64") && len(c.Args) == 1 {
+						n = c.Args[0]
+					}
+				}
+			}
+		case *ast.IfStmt:
+			// resp != nil && resp.StatusCode == <status>
+			if be, ok := s.Cond.(*ast.BinaryExpr); ok && be.Op == token.LAND {
+				if r, ok := be.Y.(*ast.BinaryExpr); ok && r.Op == token.EQL {
+					if sel, ok := r.X.(*ast.SelectorExpr); ok && sel.Sel.Name == "StatusCode" {
+						if v, ok := statusOperand(r.Y, "\x00", what); ok {
+							status = v
+						}
+					}
+				}
+			}
+			// retryAfter, _ := strconv.ParseInt(...); retryAfter <op> <k>
+			if as, ok := s.Init.(*ast.AssignStmt); ok && len(as.Lhs) == 2 && isIdent(as.Lhs[0], "retryAfter") {
+				if be, ok := s.Cond.(*ast.BinaryExpr); ok && isIdent(be.X, "retryAfter") {
+					op := map[token.Token]string{token.GTR: ">?", token.GEQ: ">=?", token.LSS: "<?", token.LEQ: "<=?"}[be.Op]
+					if lit, ok := be.Y.(*ast.BasicLit); ok && op != "" && lit.Kind == token.INT {
+						okCond = fmt.Sprintf("(ra %s %s)%%Z", op, lit.Value)
+					}
+				}
+				if len(s.Body.List) == 1 {
+					if r, ok := s.Body.List[0].(*ast.ReturnStmt); ok && len(r.Results) == 1 {
+						if be, ok := r.Results[0].(*ast.BinaryExpr); ok && be.Op == token.MUL {
+							if c, ok := be.X.(*ast.CallExpr); ok && len(c.Args) == 1 && isIdent(c.Args[0], "retryAfter") {
+								unit = evalConst(f, be.Y, what).ExactString()
+							}
+						}
+					}
+				}
+			}
+		}
+		return true
+	})
+	if temp == nil || a == nil || n == nil || status == "" || unit == "" || okCond == "" {
+		fail("%s: cannot find temp/interval/n or the Retry-After branch (status, positivity test, unit)", what)
+	}
+	x.Printf("From Coq Require Import QArith.\n(* %s: arithmetic and Retry-After constants *)\n", what)
+	x.Printf("Definition %s_retry_after_status : Z := (%s)%%Z.\n", name, status)
+	x.Printf("Definition %s_retry_after_ok (ra : Z) : bool := %s.\n", name, okCond)
+	x.Printf("Definition %s_retry_after_unit : Z := (%s)%%Z.\n", name, unit)
+	x.Printf("Definition %s_temp (backoff : Z) (factor jitter : Q) (attempt : Z) : Q :=\n  %s.\n", name, qExpr(f, temp, what))
+	x.Printf("Definition %s_a (temp jitter : Q) : Q :=\n  %s.\n", name, qExpr(f, a, what))
+	x.Printf("Definition %s_n (temp jitter : Q) : Q :=\n  %s.\n\n", name, qExpr(f, n, what))
+}
